@@ -43,8 +43,38 @@ Definition field_of_head (is_linear : bool) (head : string) : field :=
   else if contains "recurrent_activation" head then FRecAct
   else FAct.
 
+(* role = head[len(layer_name):] if head.startswith(layer_name) else head   (since the fix: commit 35de18b) *)
+Fixpoint strip_prefix (p s : string) : option string :=
+  match p, s with
+  | EmptyString, _ => Some s
+  | String a p', String b s' => if Ascii.eqb a b then strip_prefix p' s' else None
+  | _, _ => None
+  end.
+Definition role_of (layer_name head : string) : string :=
+  match strip_prefix layer_name head with Some r => r | None => head end.
+Definition role_field (is_linear : bool) (layer_name head : string) : field :=
+  field_of_head is_linear (role_of layer_name head).
+
 Definition slot (l : list lim) (i : Z) : option lim :=
   if (i <? 0)%Z then nth_error (rev l) (Z.to_nat (- i - 1)) else nth_error l (Z.to_nat i).
+
+Lemma strip_prefix_app n r : strip_prefix n (n ++ r) = Some r.
+Proof. induction n as [|a n IH]; [reflexivity|]. cbn. rewrite Ascii.eqb_refl. exact IH. Qed.
+Lemma role_of_app n r : role_of n (n ++ r) = r.
+Proof. unfold role_of. rewrite strip_prefix_app. reflexivity. Qed.
+
+(* the role no longer depends on the layer name: whatever the name contains, the heads built by
+   quantize_model (name ++ "_role") resolve to the role's own field *)
+Theorem role_independent_of_layer_name (n : string) :
+  role_field false n (n ++ "_kernel") = FKernel /\
+  role_field false n (n ++ "_bias") = FBias /\
+  role_field false n (n ++ "_activation") = FAct /\
+  role_field false n (n ++ "_recurrent_activation") = FRecAct /\
+  role_field true n (n ++ "_activation") = FLinear /\
+  (* as in the source, "kernel" is tested first: the pointwise / recurrent kernels use the kernel field and slot 0 *)
+  role_field false n (n ++ "_pointwise_kernel") = FKernel /\
+  role_field false n (n ++ "_recurrent_kernel") = FKernel.
+Proof. unfold role_field. rewrite !role_of_app. repeat split; reflexivity. Qed.
 
 (* ---------- the tuner ---------- *)
 (* hp.Choice(name, values) / hp.Fixed(name, value): any element of the list *)
@@ -95,7 +125,7 @@ Section GetQuantizer.
     end.
 
   Definition get_quantizer (g : groups) (head layer_name class_name : string) (is_linear : bool) : res * groups :=
-    let f := field_of_head is_linear head in
+    let f := role_field is_linear layer_name head in
     match first_match lims layer_name with
     | Some p =>
       match assoc p lims with
@@ -192,10 +222,10 @@ Section GetQuantizerThm.
      role's slot index, whatever the tuner chooses; the group table stays consistent *)
   Theorem get_quantizer_within_limit g head ln cn il q b g' :
     groups_ok lims cfg g -> getq g head ln cn il = (RSome q b, g') ->
-    ok (resolved lims rematch ln cn) (field_index (field_of_head il head)) q b /\ groups_ok lims cfg g'.
+    ok (resolved lims rematch ln cn) (field_index (role_field il ln head)) q b /\ groups_ok lims cfg g'.
   Proof.
     intros G H. unfold resolved. unfold get_quantizer in H.
-    set (f := field_of_head il head) in *.
+    set (f := role_field il ln head) in *.
     destruct (first_match rematch lims ln) as [p|] eqn:F.
     - destruct (assoc p lims) as [slots|] eqn:A; [|inversion H].
       destruct (glookup g p (field_index f)) as [[q0 b0]|] eqn:GL.
@@ -223,7 +253,7 @@ Section GetQuantizerThm.
   (* layers matched by one pattern share one choice per slot: once the group holds a choice it is returned *)
   Theorem get_quantizer_group_shared g head ln cn il p q b :
     first_match rematch lims ln = Some p -> assoc p lims <> None ->
-    glookup g p (field_index (field_of_head il head)) = Some (q, b) ->
+    glookup g p (field_index (role_field il ln head)) = Some (q, b) ->
     getq g head ln cn il = (RSome q b, g).
   Proof. intros F A GL. unfold get_quantizer. rewrite F.
     destruct (assoc p lims); [|congruence]. rewrite GL. reflexivity. Qed.
@@ -232,10 +262,10 @@ Section GetQuantizerThm.
   Theorem get_quantizer_group_recorded g head ln cn il p q b g' :
     first_match rematch lims ln = Some p ->
     getq g head ln cn il = (RSome q b, g') ->
-    glookup g' p (field_index (field_of_head il head)) = Some (q, b).
+    glookup g' p (field_index (role_field il ln head)) = Some (q, b).
   Proof. intros F H. unfold get_quantizer in H. rewrite F in H.
     destruct (assoc p lims) as [slots|]; [|inversion H].
-    destruct (glookup g p (field_index (field_of_head il head))) as [[q0 b0]|] eqn:GL.
+    destruct (glookup g p (field_index (role_field il ln head))) as [[q0 b0]|] eqn:GL.
     - inversion H; subst. exact GL.
     - destruct (fresh cfg ch slots _ _) as [[q0 b0]|]; [|inversion H].
       inversion H; subst. rewrite glookup_cons, String.eqb_refl, Z.eqb_refl. reflexivity. Qed.
@@ -244,8 +274,8 @@ Section GetQuantizerThm.
   Theorem get_quantizer_class_limit_per_role g head ln cn il q b g' :
     first_match rematch lims ln = None ->
     getq g head ln cn il = (RSome q b, g') ->
-    exists slots lm, assoc cn lims = Some slots /\ slot slots (field_index (field_of_head il head)) = Some lm /\
-      from_field cfg (field_of_head il head) q b /\ obeys lm q b /\ g' = g.
+    exists slots lm, assoc cn lims = Some slots /\ slot slots (field_index (role_field il ln head)) = Some lm /\
+      from_field cfg (role_field il ln head) q b /\ obeys lm q b /\ g' = g.
   Proof. intros F H. unfold get_quantizer in H. rewrite F in H.
     destruct (assoc cn lims) as [slots|]; [|inversion H].
     destruct (fresh cfg ch slots _ _) as [[q0 b0]|] eqn:FR; [|inversion H].
@@ -280,19 +310,19 @@ Section Select.
   Variable ch : chooser.
   Notation getq := (get_quantizer lims cfg rematch ch).
 
-  (* first loop (347-376): kernel choices per layer; the recurrent / pointwise choices live in ONE variable each *)
-  Record st1 := St1 { s_g : groups; s_k : list (string * res); s_rec : res; s_pw : res; s_err : bool; s_log : list (string * string * res) }.
+  (* first loop (347-380): kernel, recurrent and pointwise choices per layer name (since the fix: commit 9ab3115) *)
+  Record st1 := St1 { s_g : groups; s_k : list (string * res); s_rec : list (string * res); s_pw : list (string * res); s_err : bool; s_log : list (string * string * res) }.
   Definition step1 (s : st1) (l : layer) : st1 :=
     if mem (ly_class l) registered then
       let '(k, g1) := getq (s_g s) (ly_name l ++ "_kernel") (ly_name l) (ly_class l) false in
       let s1 := St1 g1 ((ly_name l, k) :: s_k s) (s_rec s) (s_pw s) (s_err s || is_err k) ((ly_name l, ly_class l, k) :: s_log s) in
       let s2 := if mem (ly_class l) sequence_layers then
                   let '(r, g2) := getq (s_g s1) (ly_name l ++ "_recurrent_kernel") (ly_name l) (ly_class l) false in
-                  St1 g2 (s_k s1) r (s_pw s1) (s_err s1 || is_err r) ((ly_name l, ly_class l, r) :: s_log s1)
+                  St1 g2 (s_k s1) ((ly_name l, r) :: s_rec s1) (s_pw s1) (s_err s1 || is_err r) ((ly_name l, ly_class l, r) :: s_log s1)
                 else s1 in
       if mem (ly_class l) separable_layers then
         let '(r, g3) := getq (s_g s2) (ly_name l ++ "_pointwise_kernel") (ly_name l) (ly_class l) false in
-        St1 g3 (s_k s2) (s_rec s2) r (s_err s2 || is_err r) ((ly_name l, ly_class l, r) :: s_log s2)
+        St1 g3 (s_k s2) (s_rec s2) ((ly_name l, r) :: s_pw s2) (s_err s2 || is_err r) ((ly_name l, ly_class l, r) :: s_log s2)
       else s2
     else s.
 
@@ -300,7 +330,8 @@ Section Select.
   Record st2 := St2 { t_g : groups; t_out : list (string * entry); t_err : bool; t_log : list (string * string * res) }.
   Definition any_pattern (name : string) : bool := existsb (fun pv => rematch (fst pv) name) lims.
 
-  Definition step2 (kd : list (string * res)) (rq pq : res) (idx : option (list nat)) (s : st2) (il : nat * layer) : st2 :=
+  Definition lookup_res (n : string) (l : list (string * res)) : res := match assoc n l with Some r => r | None => RNone end.
+  Definition step2 (kd : list (string * res)) (rq pq : list (string * res)) (idx : option (list nat)) (s : st2) (il : nat * layer) : st2 :=
     let '(i, l) := il in
     let n := ly_name l in let c := ly_class l in
     if match idx with Some ids => negb (existsb (Nat.eqb i) ids) | None => false end then s
@@ -308,8 +339,8 @@ Section Select.
       match assoc n kd with
       | Some (RSome kq _) =>
         let d0 := [((if mem c depthwise_named then "depthwise_quantizer" else "kernel_quantizer"), kq)] in
-        let d1 := if mem c sequence_layers then snoc d0 ("recurrent_quantizer", res_str rq) else d0 in
-        let d2 := if mem c separable_layers then snoc d1 ("pointwise_quantizer", res_str pq) else d1 in
+        let d1 := if mem c sequence_layers then snoc d0 ("recurrent_quantizer", res_str (lookup_res n rq)) else d0 in
+        let d2 := if mem c separable_layers then snoc d1 ("pointwise_quantizer", res_str (lookup_res n pq)) else d1 in
         let '(d3, g3, e3, lg3) :=
           if mem c ["LSTM"; "GRU"; "Bidirectional"] then
             let '(r, g') := getq (t_g s) (n ++ "_recurrent_activation") n c false in
@@ -350,7 +381,7 @@ Section Select.
     match l with [] => [] | x :: r => (i, x) :: enumerate (S i) r end.
 
   Definition select (ls : list layer) (idx : option (list nat)) : st2 :=
-    let s1 := fold_left step1 ls (St1 [] [] RNone RNone false []) in
+    let s1 := fold_left step1 ls (St1 [] [] [] [] false []) in
     let s2 := fold_left (step2 (s_k s1) (s_rec s1) (s_pw s1) idx) (enumerate 0 ls) (St2 (s_g s1) [] (s_err s1) (s_log s1)) in
     s2.
 
